@@ -26,32 +26,47 @@ PROP = {
             "precedence traps) through the real parser, AST dump compared with the Lean Pratt parser over the extracted "
             "binding-power table. Every case is non-trivial (nt); distinct = distinct case line.",
     "assumptions": [
-        "queries are well-typed (comparisons within one type category); the engine is dynamically typed and answers FALSE where the spec has no opinion",
+        "comparisons across type categories (number / text / boolean) are type errors: the spec rejects the statement statically, the "
+        "engine (since repo 603e883) when the comparison meets two non-NULL values; generated cross-category comparisons are the whole "
+        "WHERE of a single-table statement over a row where both sides are non-NULL, before any DML of the case",
         "an arithmetic error (overflow, division by zero, value not fitting the result column) can be raised by at most one clause of a "
         "single-table statement in generated cases: which failing sub-expression is reported, and whether rows that are joined away or cut "
         "off by LIMIT are evaluated, depends on plan and pipelining (SQL leaves evaluation order open)",
         "LIMIT/OFFSET are generated only under an ORDER BY over all output columns (otherwise the answer is not unique); under a partial "
         "ORDER BY the answer must be sorted under the spec comparator and equal as a multiset",
-        "aggregate queries have the form SELECT keys.., aggregates.. GROUP BY keys.. (the engine emits keys then aggregates positionally); "
-        "HAVING, ORDER BY/DISTINCT/LIMIT on aggregate queries, aggregates inside expressions, COUNT(DISTINCT), sub-queries and CASE are outside the modelled grammar",
+        "aggregate queries: select list and HAVING are expressions over the aggregate row (group keys, then aggregates; since repo "
+        "eb9b25f the engine plans them that way); a column that is neither grouped nor aggregated cannot be written in the case "
+        "syntax; SUM results are only compared / added to, AVG results only shown (they are doubles in the engine); "
+        "sub-queries in expressions are outside the modelled grammar (they answer an error since repo 6dee6fb); derived tables in "
+        "FROM are modelled in their select-project form (SELECT items FROM f [WHERE w]) AS r, every output column typed; a statement "
+        "over a derived table with a WHERE of its own is generated without clauses that can fail (the engine merges the two filters); "
+        "CASE (searched and simple) is modelled, but not below a unary minus",
+        "string functions UPPER, LOWER, LENGTH, LTRIM, RTRIM and || are modelled on byte strings: letters are the ASCII letters "
+        "(generated texts are ASCII; the engine maps non-ASCII letters by Unicode rules), LENGTH counts UTF-8 characters, the trims "
+        "remove spaces only (since repo ba55ebb), NULL in gives NULL out (since repo ba327e3); CONCAT(), COALESCE, NULLIF and the "
+        "numeric functions are outside the modelled grammar",
         "SUM/AVG return DOUBLE in the engine: compared as exact integers / correctly rounded quotients, for |sum| < 2^53",
+        "DOUBLE columns are compare-only: their values (eighths of small integers, written f<IEEE-754 bits>) are stored, compared with each "
+        "other and with decimal literals, sorted, grouped, counted, MIN/MAXed and shown; no arithmetic, SUM or AVG over them and no "
+        "comparison with integer-typed expressions is generated (the spec keeps the order key of the bit pattern, it has no floating-point "
+        "semantics); a double holding an integer is shown as that integer",
         "integer literals and stored values are exactly representable as f64 (the lexer reads numbers as f64)",
         "what a failed INSERT/UPDATE/DELETE leaves behind is C03: statements after a failed DML statement of a case are not compared",
         "errors reach the public API as text (TaskError::TaskFailed(String)); their class is read from the prefixes produced by the error enums' Display impls",
     ],
-    "partial": "parser: proved at the token level (parse_printMin: for every printable expression the parser on the extracted "
-               "table reads the minimal-parentheses rendering back as the same tree; parse_printFull; table_ordered); the step "
-               "text <-> tokens (lexer: lex_render_statement) is only tested by engine `parse` (6 000 / 100 000 expressions per run). "
-               "sql: the laws are proved for the operators the reference evaluator is built from and for statement-level DELETE "
-               "(select_pipeline and from_join_is_joinPure tie the evaluator to the operators); the agreement of the engine with the "
-               "evaluator is tested, not proved.",
+    "partial": "parser: text -> AST is proved end to end for the expression grammar (parse_text_roundtrip = lex_render_tokens + "
+               "parse_printMin + table_ordered); CASE, function calls and sub-queries are not in the parser model. "
+               "sql: the laws are proved for the operators the reference evaluator is built from and for statement-level "
+               "INSERT/UPDATE/DELETE (select_pipeline and from_join_is_joinPure tie the evaluator to the operators); the agreement "
+               "of the engine with the evaluator is tested, not proved.",
     "trusted": ["SQL printer (minimal parentheses), result canonicaliser and ORDER BY sortedness check of the Rust harness",
+                "bit pattern <-> order key conversion of DOUBLE values in the Lean driver (integer arithmetic on the bit pattern)",
                 "Lean `Float` division only for printing non-integral AVG results (no theorem mentions it)"],
 }
 
 TEXT = {
     "text": "Lean reference evaluator for the SQL fragment (three-valued logic, comparisons, BETWEEN, IN, IS NULL, LIKE, checked integer "
-            "arithmetic, joins of every type, GROUP BY + aggregates, DISTINCT, ORDER BY, LIMIT/OFFSET, INSERT/UPDATE/DELETE) with theorems "
+            "arithmetic, CASE, string functions, joins of every type, derived tables, GROUP BY + aggregates + HAVING, DISTINCT, ORDER BY, LIMIT/OFFSET, INSERT/UPDATE/DELETE) with theorems "
             "that it obeys the defining laws of SQL for all tables and predicates, and a Lean model of the Pratt parser over the binding-power "
             "table extracted from the code with a parse-print round-trip theorem; both tied to the real engine on every run by thousands of "
             "generated statements through the public Database API.",
